@@ -41,6 +41,7 @@ def run(chk):
     shadow_rule(chk, fx, fn)
     use_rule(chk, fx)
     scope_rule(chk, fx, fn)
+    args_rules(chk, fx, fn)
     return ('Visitor-completeness over OwnershipChecker::check_expr (same engine as C22). Decides "every use position is visited"; '
             'which positions move a value and scoping are not decided.'), {}
 
@@ -67,6 +68,134 @@ def scope_rule(chk, fx, fn):
                 'moved (`for! xs, x =>` with `w = x`) is unknown to every scope and OwnershipChecker::drop panics' % (l[0], d[0]), FILE, l[2])
     else:
         chk.ok('C23-params', 'Lambda', sample='Lambda arm: %d define_param call(s), Def arm: %d' % (l[0], d[0]))
+
+
+def _arm_of(fn, variant):
+    for m in T.walk(fn['body']):
+        if m.get('k') == 'Match':
+            for arm in m['arms']:
+                if any(v.endswith('::Expr::' + variant) for v in T.pat_variants(arm['pat'])):
+                    return arm
+    return None
+
+
+def _locals(body):
+    """binding id -> initialiser of every `let pat = ..` in the subtree (tuple patterns: each binding -> the whole initialiser)"""
+    out = {}
+    for n in T.walk(body):
+        if n.get('k') == 'Let' and n.get('init') is not None:
+            for b in T.walk(n['pat']):
+                if b.get('k') == 'Bind':
+                    out[b['id']] = n['init']
+    return out
+
+
+def _derivation(expr, loc, seen=None):
+    """text of the expression with every local replaced (transitively) by its initialiser"""
+    seen = seen or set()
+    txt = T.show(expr)
+    for n in T.walk(expr):
+        if n.get('k') == 'Local' and n.get('id') in loc and n['id'] not in seen:
+            txt += ' <- ' + n['n'] + ' = ' + _derivation(loc[n['id']], loc, seen | {n['id']})
+    return txt
+
+
+def args_rules(chk, fx, fn):
+    chk.rule('C23-self', 'in the Call arm of check_expr the ownership list that the positional arguments are zipped with leaves out the receiver when the call is a method call '
+                         '(its derivation tests is_method_call): otherwise every argument gets the ownership of the parameter before it, `c.take! v` moves nothing')
+    chk.rule('C23-kw', 'keyword arguments are matched by name: every loop of the Call arm over (a part of) call.args.kw_args visits its element on every branch and is not zipped with '
+                       'a positional list (a zip stops at the shorter list: `take! v:=a` was never visited)')
+    chk.rule('C23-tail', 'check_block checks the value of a block (its last expression) with chunk = false whatever the length of the block: a call of check_expr with chunk = false '
+                         'that is reached only when `len() == 1` leaves the tail of longer blocks unmoved')
+    chk.rule('C23-owned', 'Ownership::Owned (passing moves the argument) is produced for a parameter type only under an is_mut_type() test, in SubrType::args_ownership and Type::ownership: '
+                          'an argument for a parameter of immutable type (`*args: Obj`) is not moved')
+    arm = _arm_of(fn, 'Call')
+    if chk.need(arm is not None, 'check_expr: no arm for Expr::Call'):
+        loc = _locals(arm['b'])
+        loops = [m for m in T.walk(arm['b']) if m.get('k') == 'Match' and m.get('src') == 'ForLoopDesugar']
+        loops = list({id(m): m for m in loops}.values())
+        chk.floor('C23 loops over the arguments of a call', len(loops), 3)
+        # --- C23-self
+        zl = []
+        for m in loops:
+            d = _derivation(m['x'], loc)
+            if 'args.pos_args' in d:
+                z = [c for c in T.calls(m['x']) if c.get('k') == 'MCall' and c['n'] == 'zip']
+                if z:
+                    zl.append((m, z[0]))
+        if chk.need(zl, 'Call arm: no zip of the positional arguments with an ownership list'):
+            m, z = zl[0]
+            d = _derivation(z['a'][0], loc)
+            if 'is_method_call' in d:
+                chk.ok('C23-self', 'zip', sample=d[:160])
+            else:
+                chk.bad('C23-self', 'OwnershipChecker::check_expr', 'self-not-skipped', 'the positional arguments are zipped with `%s`, which does not depend on is_method_call(): for a method '
+                        'call the list starts with the ownership of `self`, so the n-th argument gets the ownership of parameter n-1 (`c.take! v; print! v` gives no MoveError)'
+                        % T.show(z['a'][0])[:80], FILE, m.get('l'))
+        # --- C23-kw
+        kwl = []
+        for m in loops:
+            d = _derivation(m['x'], loc)
+            if 'args.kw_args' in d:
+                kwl.append(m)
+        if chk.need(kwl, 'Call arm: no loop over the keyword arguments'):
+            for m in kwl:
+                src = T.show(m['x'])
+                zipped = any(c.get('k') == 'MCall' and c['n'] in ('zip', 'take', 'skip', 'filter', 'take_while', 'skip_while', 'step_by') for c in T.calls(m['x']))
+                body = {'body': m['arms'][0]['b']} if len(m['arms']) == 1 else {'body': m}
+                from sa.kinds import vspec as VS
+                lp = [n for n in T.walk(m) if n.get('k') == 'Loop']
+                visits = False
+                if lp:
+                    somearm = [a for mm in T.walk(lp[0]) if mm.get('k') == 'Match' for a in mm['arms'] if any('Some' in v for v in T.pat_variants(a['pat']))]
+                    if somearm:
+                        visits = VS.must_pass({'body': somearm[0]['b']}, lambda n: n.get('k') == 'MCall' and n['n'] == 'check_expr')
+                key = 'kw-loop:' + T.norm(src)[:60]
+                if zipped:
+                    chk.bad('C23-kw', 'OwnershipChecker::check_expr', key, 'a loop over keyword arguments (`%s`) is zipped / truncated: keyword arguments beyond the other list are never '
+                            'visited (`take! v:=a` neither moves `a` nor notices that it was moved)' % src[:90], FILE, m.get('l'))
+                elif not visits:
+                    chk.bad('C23-kw', 'OwnershipChecker::check_expr', key, 'the loop over keyword arguments `%s` has a branch that does not call check_expr' % src[:90], FILE, m.get('l'))
+                else:
+                    chk.ok('C23-kw', key, sample=src[:100])
+    # --- C23-tail
+    cb = fx.fn(FILE, 'OwnershipChecker::check_block')
+    ce = []
+    for n, ctx in T.walk_ctx(cb['body']):
+        if n.get('k') == 'MCall' and n['n'] == 'check_expr' and len(n['a']) == 3:
+            flag = T.peel(n['a'][2])
+            lit = flag.get('v') if flag.get('k') == 'Lit' else None
+            only_single = any(c[0] == 'if' and 'len()' in T.show(c[1]) and '== 1' in T.show(c[1]) for c in ctx)
+            ce.append((lit, only_single, n))
+    if chk.need(ce, 'check_block: no call of check_expr'):
+        good = any(lit is None for lit, _, _ in ce) or any(str(lit) == 'false' and not single for lit, single, _ in ce)
+        if good:
+            chk.ok('C23-tail', 'check_block', sample='; '.join(T.show(n['a'][2]) for _, _, n in ce))
+        else:
+            chk.bad('C23-tail', 'OwnershipChecker::check_block', 'tail-as-chunk', 'check_block passes chunk = false only when the block has one expression; in a longer block the last '
+                    'expression is checked as a chunk and is not moved: `q2 = (print! "x"; q)` followed by `print! q` gives no MoveError', FILE, cb.get('l'))
+    # --- C23-owned
+    TY = 'crates/erg_compiler/ty/mod.rs'
+    for name in ('SubrType::args_ownership', 'Type::ownership'):
+        f = fx.fn(TY, name)
+        sites = []
+        for n, ctx in T.walk_ctx(f['body']):
+            if n.get('k') == 'Path' and T.show(n).endswith('Ownership::Owned'):
+                guarded = False
+                for c in ctx:
+                    if c[0] == 'if' and 'is_mut_type' in T.show(c[1]):
+                        guarded = True
+                    if c[0] == 'arm' and c[2].get('g') is not None and 'is_mut_type' in T.show(c[2]['g']):
+                        guarded = True
+                sites.append((guarded, n))
+        if name == 'SubrType::args_ownership':
+            chk.floor('C23 Owned sites in args_ownership', len(sites), 2)
+        for i, (g, n) in enumerate(sites):
+            if g:
+                chk.ok('C23-owned', '%s#%d' % (name, i))
+            else:
+                chk.bad('C23-owned', name, 'owned-unguarded#%d' % i, '%s answers Ownership::Owned without testing is_mut_type(): a mutable object passed for a parameter of immutable type '
+                        '(`p! *args: Obj`) is moved and its later use is rejected' % name, TY, n.get('l'))
 
 
 def use_rule(chk, fx):
